@@ -12,7 +12,7 @@ Extraction "model.ml"
   Validate.validate
   View.view View.strip View.caps_ok View.size_m View.bytes_len
   Emplace.emplace Emplace.assign_in_place Emplace.default_in_place
-  Ops.vec_op Ops.flex_op Ops.tail_container Ops.nested_vec_op Ops.nested_flex_op
+  Ops.vec_op Ops.flex_op Ops.tail_container Ops.nested_vec_op Ops.nested_flex_op Ops.flex_edit_flex Ops.nested_flex_edit_flex
   Io.io_capacity Io.new_buffer Io.recv_many Io.arecv_many Io.send_many Io.asend_many
   Io.sys_step Io.run_schedule Io.run_tail Io.sys_done
   Portable.p_enc Portable.p_dec.
